@@ -728,13 +728,437 @@ def check_C14(ctx):
     shutil.rmtree(base, ignore_errors=True)
 
 
+# =============================================================================================== C15
+def prove_C15(ctx):
+    ctx.prove(["Properties/C15.v"])
+
+
+def check_C15(ctx):
+    import runner
+
+    ctx.stream("dispatch", 100, 600)
+    src = (SUP / "witness_threads.py").read_text()
+    rng = random.Random("c15-%d" % ctx.seed)
+    cases, groups = [], []
+    ncase = 10 if ctx.quick else 80
+    for ci in range(ncase):
+        kind = "threads" if ci % 3 != 2 else "generators"
+        if kind == "threads":
+            acts = [[rng.choice(["w0", "w1", "w2"]), rng.randrange(1, 4)] for _ in range(rng.choice([2, 2, 3]))]
+        else:
+            acts = [[rng.choice(["g0", "g1"]), rng.randrange(1, 4)] for _ in range(rng.choice([2, 3]))]
+        n = len(acts)
+        if ci < 4 and ctx.quick or (not ctx.quick and ci < 20):
+            # short workloads: enumerate a family of schedules exhaustively (all words of length 4 over the activities)
+            scheds = [list(w) for w in itertools.product(range(n), repeat=3)]
+        else:
+            scheds = [[rng.randrange(n) for _ in range(rng.randrange(2, 12))] for _ in range(3)]
+        cov = ci % 2 == 0
+        hooks = rng.sample([x for x in HOOK_POOL if x not in EXEC_LEVEL], rng.randrange(2, 8)) + ["runtime_event"] * (ci % 4 == 0)
+        ans = [{"cls": "A0", "hooks": {h_: None for h_ in hooks}}]
+        solo = {"id": "c15/%d/solo" % ci, "files": {"main.py": src}, "analyses": ans, "coverage": cov, "want": ("inst",),
+                "activities": {"kind": kind, "acts": acts, "schedule": [i for i in range(n) for _ in range(10000)][:0] or []}}
+        # solo = run activities one after the other: schedule that sticks to the lowest alive index
+        solo["activities"]["schedule"] = []
+        cs = []
+        for si, sch in enumerate(scheds):
+            c = {"id": "c15/%d/s%d" % (ci, si), "files": {"main.py": src}, "analyses": ans, "coverage": cov, "want": ("inst",),
+                 "activities": {"kind": kind, "acts": acts, "schedule": sch}}
+            cs.append(c)
+        cases += [solo] + cs
+        groups.append((solo, cs))
+    res = dict(zip([c["id"] for c in cases], runner.run_cases(cases)))
+
+    def per_activity(r):
+        a = r.get("activities") or {}
+        if "error" in a or "owner" not in a:
+            return None
+        dl = _loc_dels(r)
+        base = a["base"]
+        out = {}
+        for d, o in zip(dl[base:], a["owner"]):
+            out.setdefault(o, []).append(d)
+        return out
+
+    def cov_total(r):
+        t = {}
+        for f, cv in (r.get("coverage") or {}).items():
+            for fn, lines in cv.items():
+                for ln, an in lines.items():
+                    for c_, n_ in an.items():
+                        t[(Path(fn).name, ln, c_)] = t.get((Path(fn).name, ln, c_), 0) + n_
+        return t
+
+    for solo, cs in groups:
+        rs = res[solo["id"]]
+        if "harness_error" in rs or rs["inst"]["exc"]:
+            ctx.broken.append("harness error C15 %s: %s" % (solo["id"], (rs.get("harness_error") or str(rs["inst"]["exc"]))[-300:]))
+            continue
+        ps = per_activity(rs)
+        for c in cs:
+            r = res[c["id"]]
+            if "harness_error" in r or r["inst"]["exc"]:
+                ctx.broken.append("harness error C15 %s: %s" % (c["id"], (r.get("harness_error") or str(r["inst"]["exc"]))[-300:]))
+                continue
+            ctx.count(1, [json.dumps(c["activities"]) + json.dumps(sorted(c["analyses"][0]["hooks"]))], [{"activities": c["activities"], "hooks": sorted(c["analyses"][0]["hooks"]), "coverage": c["coverage"]}])
+            ctx.impl_traces += 1
+            pa = per_activity(r)
+            if pa is None or ps is None:
+                ctx.violation("C15:deadlock", "activities did not complete under schedule %r: %r" % (c["activities"]["schedule"], r.get("activities")), {"case": c})
+                continue
+            if r["activities"]["results"] != rs["activities"]["results"]:
+                ctx.violation("C15:results", "results under schedule %r differ from the solo results: %r vs %r" % (c["activities"]["schedule"], r["activities"]["results"], rs["activities"]["results"]), {"case": c, "solo": solo})
+            for i in range(len(c["activities"]["acts"])):
+                if pa.get(i, []) != ps.get(i, []):
+                    a_, b_ = pa.get(i, []), ps.get(i, [])
+                    j = next((x for x in range(min(len(a_), len(b_))) if a_[x] != b_[x]), min(len(a_), len(b_)))
+                    ctx.violation("C15:events", "activity %d (%s) contributes a different event subsequence under schedule %r than alone (first difference at %d: %r vs %r)" % (i, c["activities"]["acts"][i][0], c["activities"]["schedule"], j, a_[j:j + 1], b_[j:j + 1]), {"case": c, "solo": solo})
+                    break
+            if c["coverage"] and cov_total(r) != cov_total(rs):
+                ctx.violation("C15:coverage", "coverage totals under schedule %r differ from the sequential run" % (c["activities"]["schedule"],), {"case": c, "solo": solo})
+
+
+# =============================================================================================== C08
+def prove_C08(ctx):
+    ctx.prove(["Properties/C08.v"])
+
+
+def check_C08(ctx):
+    import runner
+
+    ctx.stream("used_leaves", 150, 600)
+    h, leaves, names = _hier()
+    rng = random.Random("c08-%d" % ctx.seed)
+    progs = _programs(ctx, 6 if ctx.quick else 50)
+    fam = {}
+
+    def lv(d, acc):
+        for k, v in d.items():
+            if v:
+                lv(v, acc)
+            else:
+                acc.append(k)
+
+    def walk(d):
+        for k, v in d.items():
+            if v:
+                a = []
+                lv(v, a)
+                fam[k] = sorted(set(a))
+                walk(v)
+
+    walk(h)
+    cases, groups = [], []
+    cand = [x for x in names if x not in EXEC_LEVEL]
+    for pname, files in progs:
+        hs = rng.sample(cand, 4 if ctx.quick else 8)
+        for hk in hs:
+            supersets = [("all", names)]
+            f_ = [k for k, v in fam.items() if hk in v or hk == k]
+            if f_:
+                g = rng.choice(f_)
+                supersets.append(("family:" + g, sorted(set(fam[g] + [hk]))))
+            supersets.append(("random", sorted(set(rng.sample(cand, rng.randrange(2, 10)) + [hk]))))
+            solo = {"id": "%s/%s/solo" % (pname, hk), "files": files, "want": ("inst",), "analyses": [{"cls": "A0", "hooks": {hk: None}}]}
+            cases.append(solo)
+            for label, sup in supersets:
+                c = {"id": "%s/%s/%s" % (pname, hk, label), "files": files, "want": ("inst",), "analyses": [{"cls": "A0", "hooks": {hk: None}}], "select": sup}
+                cases.append(c)
+                groups.append((solo, c, hk, label))
+            # generic hook vs the set of its leaves (instrumentation must be identical)
+            if hk in fam:
+                c2 = {"id": "%s/%s/leaves" % (pname, hk), "files": files, "want": ("inst",), "analyses": [{"cls": "A0", "hooks": {hk: None}}], "select": fam[hk]}
+                cases.append(c2)
+                groups.append((solo, c2, hk, "its-leaves"))
+    res = dict(zip([c["id"] for c in cases], runner.run_cases(cases)))
+    for solo, c, hk, label in groups:
+        rs, rc = res[solo["id"]], res[c["id"]]
+        if "harness_error" in rs or "harness_error" in rc:
+            ctx.broken.append("harness error C08 %s: %s" % (c["id"], (rs.get("harness_error") or rc.get("harness_error"))[-300:]))
+            continue
+        ctx.count(1, [c["id"] + json.dumps(c.get("select"))], [{"program": c["id"], "hook": hk, "superset": label, "n_selected": len(c.get("select") or [])}])
+        ctx.impl_traces += 2
+        a = [d for d in _loc_dels(rs, "A0") if d[0] == hk]
+        b = [d for d in _loc_dels(rc, "A0") if d[0] == hk]
+        if label == "its-leaves" and rs.get("selected") != rc.get("selected"):
+            ctx.violation("C08:generic_selection:%s" % hk, "selecting %s selects %d leaves, selecting its leaves selects %d" % (hk, len(rs.get("selected") or []), len(rc.get("selected") or [])), {"solo": solo, "full": c})
+        if a != b:
+            j = next((x for x in range(min(len(a), len(b))) if a[x] != b[x]), min(len(a), len(b)))
+            sa, sb = set(x[1] for x in a), set(x[1] for x in b)
+            src = c["files"]["main.py"].splitlines()
+
+            def seg(loc):
+                if not loc:
+                    return ""
+                (sl, sc, el, ec) = loc[1]
+                return src[sl - 1][sc:(ec if el == sl else None)] if sl <= len(src) else ""
+
+            extra = sorted(sb - sa)
+            lost = sorted(sa - sb)
+            cls = _c08_class(hk, [seg(x) for x in extra], [seg(x) for x in lost], a, b)
+            ctx.violation("C08:%s" % cls, "hook %s receives a different sequence when instrumented within %s (%d hooks) than alone: first difference at %d: %r vs %r; extra sites %r lost sites %r" % (
+                hk, label, len(c.get("select") or []), j, a[j:j + 1], b[j:j + 1], [seg(x)[:30] for x in extra][:3], [seg(x)[:30] for x in lost][:3]), {"solo": solo, "full": c})
+
+
+def _c08_class(hk, extra_segs, lost_segs, a, b):
+    import re as _re
+
+    aug = _re.compile(r"(\+|-|\*|/|//|%|\*\*|<<|>>|&|\||\^|@)=")
+    if extra_segs and not lost_segs and all(aug.search(s) for s in extra_segs):
+        return "crosstalk:augassign"
+    if not extra_segs and not lost_segs:
+        return "args_differ:%s" % hk
+    return "sites_differ:%s" % hk
+
+
+# =============================================================================================== C03 (operator matrix)
+def prove_C03(ctx):
+    ctx.prove(["Properties/C03.v"])
+
+
+BIN_TOK = {"add": "+", "bit_and": "&", "bit_or": "|", "bit_xor": "^", "divide": "/", "floor_divide": "//", "left_shift": "<<", "matrix_multiply": "@", "modulo": "%", "multiply": "*", "power": "**", "right_shift": ">>", "subtract": "-"}
+BIN_LOG = {"add": "add", "bit_and": "and", "bit_or": "or", "bit_xor": "xor", "divide": "truediv", "floor_divide": "floordiv", "left_shift": "lshift", "matrix_multiply": "matmul", "modulo": "mod", "multiply": "mul", "power": "pow", "right_shift": "rshift", "subtract": "sub"}
+CMP_TOK = {"equal": "==", "greater_than": ">", "greater_than_equal": ">=", "less_than": "<", "less_than_equal": "<=", "not_equal": "!=", "_in": "in", "not_in": "not in", "_is": "is", "is_not": "is not"}
+UN_TOK = {"bit_invert": "~", "minus": "-", "plus": "+", "_not": "not "}
+
+
+def check_C03(ctx):
+    import runner
+
+    ctx.stream("names", 150, 600)
+    h, leaves, names = _hier()
+    cases, meta = [], []
+    kinds = [("rec", "r()", "r()"), ("int", "k(6)", "k(3)"), ("mixed", "r()", "k(2)")]
+    ctxs = ["{e}", "[{e}][0]", "(lambda: {e})()", "f_({e})", "({e} if k(1) else None)"]
+    pre = "from vsupport import *\ndef f_(x):\n    return x\n"
+    for hk, tok in list(BIN_TOK.items()) + list(CMP_TOK.items()):
+        for kn, la, ra in kinds:
+            if hk == "matrix_multiply" and kn != "rec":
+                continue
+            if hk in ("_in", "not_in") and kn != "rec":
+                ra_ = "[" + ra + "]"
+            else:
+                ra_ = ra
+            for ci, cx in enumerate(ctxs if not ctx.quick else ctxs[:2]):
+                e = "%s %s %s" % (la, tok, ra_)
+                src = pre + "res = " + cx.format(e=e) + "\n"
+                for mode in ("single", "all"):
+                    cases.append({"id": "%s/%s/%d/%s" % (hk, kn, ci, mode), "files": {"main.py": src}, "analyses": [{"cls": "A0", "hooks": {hk: None}}], "select": names if mode == "all" else None})
+                    meta.append((hk, "bin" if hk in BIN_TOK else "cmp", kn, mode))
+    for hk, tok in UN_TOK.items():
+        for kn, a in (("rec", "r()"), ("int", "k(5)")):
+            src = pre + "res = %s%s\n" % (tok, a)
+            for mode in ("single", "all"):
+                cases.append({"id": "%s/%s/0/%s" % (hk, kn, mode), "files": {"main.py": src}, "analyses": [{"cls": "A0", "hooks": {hk: None}}], "select": names if mode == "all" else None})
+                meta.append((hk, "un", kn, mode))
+    # boolean operators: truthy / falsy left operand; the right operand must be evaluated only when needed
+    for hk, tok in (("_and", "and"), ("_or", "or")):
+        for lt in (True, False):
+            for kn, mk in (("rec", "r(%s)" % lt), ("int", "k(%d)" % (1 if lt else 0))):
+                src = pre + "res = %s %s k(7)\n" % (mk, tok)
+                for mode in ("single", "all"):
+                    cases.append({"id": "%s/%s%s/0/%s" % (hk, kn, lt, mode), "files": {"main.py": src}, "analyses": [{"cls": "A0", "hooks": {hk: None}}], "select": names if mode == "all" else None})
+                    meta.append((hk, "bool", kn, mode))
+    res = runner.run_cases(cases)
+    for c, (hk, cat, kn, mode), r in zip(cases, meta, res):
+        if "harness_error" in r:
+            ctx.broken.append("harness error C03 %s: %s" % (c["id"], r["harness_error"][-300:]))
+            continue
+        ctx.count(1, [c["id"]], [{"id": c["id"], "source": c["files"]["main.py"].splitlines()[-1]}] if mode == "single" and kn == "rec" else [])
+        ctx.impl_traces += 1
+        o, i = r["orig"], r["inst"]
+        # transparency of the operator evaluation itself
+        if (o["log"], o["globals"].get("res"), o["exc"] and o["exc"]["type"]) != (i["log"], i["globals"].get("res"), i["exc"] and i["exc"]["type"]):
+            extra_bool = [x for x in i["log"] if x[0] == "bool"]
+            key = "C03:double_truth_test:%s" % hk if (cat == "bool" and len(extra_bool) > len([x for x in o["log"] if x[0] == "bool"])) else "C03:operator_semantics:%s" % hk
+            ctx.violation(key, "%s: instrumented evaluation differs from the original: log %r vs %r, result %r vs %r" % (c["id"], i["log"][:6], o["log"][:6], i["globals"].get("res"), o["globals"].get("res")), {"case": c})
+            continue
+        ev = [d for d in i["deliveries"] if d[2] == hk]
+        if o["exc"]:
+            continue
+        if len(ev) != 1:
+            ctx.violation("C03:count:%s" % hk, "%s: %d %s events for one evaluation" % (c["id"], len(ev), hk), {"case": c})
+            continue
+        args = ev[0][3][2:]
+        # operands and result are the very objects the program computed
+        want_res = o["globals"].get("res")
+        if cat in ("bin", "cmp", "bool"):
+            opnds = [x for x in o["log"] if x[0] in ("new", "k")]
+            l_ = ("R%d" % opnds[0][1]) if opnds[0][0] == "new" else repr(opnds[0][1])
+            if len(opnds) > 1:
+                r_ = ("R%d" % opnds[1][1]) if opnds[1][0] == "new" else repr(opnds[1][1])
+                if hk in ("_in", "not_in") and kn != "rec":
+                    r_ = "[" + r_ + "]"
+            else:
+                r_ = None
+            got_l, got_r, got_res = args[0], args[1], args[2]
+            if got_l != l_ or (r_ is not None and got_r != r_) or got_res != want_res:
+                ctx.violation("C03:operands:%s" % hk, "%s: event carries (%s, %s, %s), the program computed (%s, %s, %s)" % (c["id"], got_l, got_r, got_res, l_, r_, want_res), {"case": c})
+        else:
+            opnds = [x for x in o["log"] if x[0] in ("new", "k")]
+            a_ = ("R%d" % opnds[0][1]) if opnds[0][0] == "new" else repr(opnds[0][1])
+            if args[0] != a_ or args[1] != want_res:
+                ctx.violation("C03:operands:%s" % hk, "%s: event carries (%s, %s), the program computed (%s, %s)" % (c["id"], args[0], args[1], a_, want_res), {"case": c})
+
+
+# =============================================================================================== C06 (locations)
+def prove_C06(ctx):
+    ctx.prove(["Properties/C06.v"])
+
+
+# libcst node kinds the documentation of each hook refers to (matchers for the framework's own locator)
+def _kinds():
+    import libcst.matchers as m
+
+    K = {}
+    K.update({"integer": [m.Integer()], "_float": [m.Float()], "imaginary": [m.Imaginary()], "boolean": [m.Name()], "none": [m.Name()],
+              "string": [m.SimpleString(), m.ConcatenatedString(), m.FormattedString()],
+              "dictionary": [m.Dict(), m.DictComp()], "_list": [m.List(), m.ListComp()], "_tuple": [m.Tuple()], "_set": [m.Set()]})
+    K["literal"] = sum((K[x] for x in ["integer", "_float", "imaginary", "boolean", "none", "string", "dictionary", "_list", "_tuple", "_set"]), [])
+    for h_ in list(BIN_TOK):
+        K[h_] = [m.BinaryOperation(), m.AugAssign()]
+        K[h_ + "_assign"] = [m.AugAssign()]
+    K["_and"] = K["_or"] = [m.BooleanOperation()]
+    for h_ in UN_TOK:
+        K[h_] = [m.UnaryOperation()]
+    for h_ in CMP_TOK:
+        K[h_] = [m.Comparison()]
+    K["comparison"] = [m.Comparison()]
+    K["unary_operation"] = [m.UnaryOperation()]
+    K["augmented_assignment"] = [m.AugAssign()]
+    K["binary_operation"] = [m.BinaryOperation(), m.BooleanOperation(), m.AugAssign()]
+    K["operation"] = K["binary_operation"] + K["unary_operation"] + K["comparison"]
+    K["read_identifier"] = [m.Name()]
+    K["read_attribute"] = [m.Attribute()]
+    K["read_subscript"] = [m.Subscript()]
+    K["read"] = [m.Name(), m.Attribute(), m.Subscript()]
+    K["write"] = [m.Assign(), m.AnnAssign(), m.AugAssign()]
+    K["delete"] = [m.Del()]
+    K["memory_access"] = K["read"] + K["write"] + K["delete"]
+    K["pre_call"] = K["post_call"] = [m.Call()]
+    K["function_enter"] = K["function_exit"] = K["implicit_return"] = [m.FunctionDef(), m.Lambda()]
+    K["_return"] = [m.Return()]
+    K["_yield"] = [m.Yield()]
+    K["enter_if"] = K["exit_if"] = [m.If(), m.IfExp()]
+    K["enter_while"] = K["normal_exit_while"] = [m.While()]
+    K["enter_for"] = K["normal_exit_for"] = [m.For(), m.CompFor()]
+    K["exit_while"] = [m.While()]
+    K["exit_for"] = [m.For(), m.CompFor()]
+    K["_break"] = [m.Break()]
+    K["_continue"] = [m.Continue()]
+    K["enter_control_flow"] = K["exit_control_flow"] = [m.If(), m.IfExp(), m.While(), m.For(), m.CompFor()]
+    K["_assert"] = [m.Assert()]
+    K["_raise"] = [m.Raise()]
+    K["enter_try"] = K["clean_exit_try"] = K["exception"] = [m.Try()]
+    K["enter_with"] = K["exit_with"] = [m.WithItem()]
+    K["enter_decorator"] = K["exit_decorator"] = [m.Decorator()]
+    K["control_flow_event"] = K["enter_control_flow"] + K["_assert"] + K["_raise"] + K["enter_try"] + K["enter_with"] + K["pre_call"] + K["function_enter"] + K["_return"] + K["_yield"] + K["enter_decorator"] + K["_break"] + K["_continue"]
+    K["runtime_event"] = K["literal"] + K["operation"] + K["control_flow_event"] + K["memory_access"]
+    return K
+
+
+def check_C06(ctx):
+    import runner
+    import libcst as cst
+    import libcst.matchers as m
+    from dynapyt.utils.nodeLocator import get_node_by_location
+    from dynapyt.instrument.IIDs import Location
+
+    ctx.stream("iids", 150, 800)
+    ctx.stream("files", 60, 400)
+    h, leaves, names = _hier()
+    K = _kinds()
+    progs = _programs(ctx, 8 if ctx.quick else 60)
+    layout = (SUP / "witness_layout.py")
+    if layout.exists():
+        progs.append(("layout", {"main.py": layout.read_text()}))
+    rng = random.Random("c06-%d" % ctx.seed)
+    cases = []
+    for pname, files in progs:
+        cases.append({"id": "%s/all" % pname, "files": files, "want": ("inst",), "analyses": [{"cls": "A0", "hooks": {n: None for n in names if n not in EXEC_LEVEL}}]})
+        sub = rng.sample([n for n in names if n not in EXEC_LEVEL], 6)
+        cases.append({"id": "%s/sub" % pname, "files": files, "want": ("inst",), "analyses": [{"cls": "A0", "hooks": {n: None for n in sub}}]})
+    res = runner.run_cases(cases)
+    for c, r in zip(cases, res):
+        if "harness_error" in r:
+            ctx.broken.append("harness error C06 %s: %s" % (c["id"], r["harness_error"][-300:]))
+            continue
+        src = c["files"]["main.py"]
+        if (r.get("origs") or {}).get("main.py") != src:
+            ctx.violation("C06:orig_bytes", "the preserved original differs from the file before instrumentation", {"case": c})
+            continue
+        tree = cst.parse_module(src)
+        # the framework's locator (utils/nodeLocator.Exact) returns the node whose PositionProvider extent equals the
+        # stored location; resolved once per source here (the locator itself re-wraps the tree on every call)
+        wrapper = cst.metadata.MetadataWrapper(tree, unsafe_skip_copy=True)
+        posmap = {}
+        for node, pos in wrapper.resolve(cst.metadata.PositionProvider).items():
+            posmap.setdefault((pos.start.line, pos.start.column, pos.end.line, pos.end.column), []).append(node)
+        idm = r["idmaps"]
+        seen = set()
+        nd = 0
+        for d in r["inst"]["deliveries"]:
+            hk, args = d[2], d[3]
+            if hk in EXEC_LEVEL:
+                continue
+            nd += 1
+            if not (len(args) >= 2 and isinstance(args[0], str) and isinstance(args[1], int)):
+                ctx.violation("C06:args:%s" % hk, "first two arguments of %s are %r" % (hk, args[:2]), {"case": c})
+                continue
+            if not args[0].endswith("main.py.orig") or args[0] not in idm:
+                ctx.violation("C06:path:%s" % hk, "event path %r is not the preserved original of the instrumented file" % (args[0],), {"case": c})
+                continue
+            loc = idm[args[0]].get(args[1]) if isinstance(idm[args[0]], dict) else None
+            if loc is None:
+                ctx.violation("C06:unknown_id:%s" % hk, "id %r of a %s event is not in the stored id map" % (args[1], hk), {"case": c})
+                continue
+            key = (hk, tuple(loc))
+            if key in seen:
+                continue
+            seen.add(key)
+            want = K.get(hk)
+            if want is None:
+                continue
+            found = None
+            cands = posmap.get(tuple(loc), [])
+            for mt in want:
+                for node in cands:
+                    if m.matches(node, mt):
+                        found = node
+                        break
+                if found is not None:
+                    break
+            if found is None:
+                node = cands[0] if cands else None
+                sl = loc[0]
+                line = src.splitlines()[sl - 1] if sl <= len(src.splitlines()) else ""
+                kind = "no_node" if node is None else "wrong_kind"
+                cls = _c06_class(src, loc, hk, kind)
+                ctx.violation("C06:%s" % cls, "%s event at %r: the locator finds %s in the preserved original (line: %r)" % (hk, tuple(loc), "no node with exactly this extent" if node is None else "a %s" % type(node).__name__, line.strip()[:80]), {"case": c, "hook": hk, "loc": loc})
+        ctx.count(1, [c["id"]], [{"program": c["id"], "deliveries": nd, "distinct_locations": len(seen)}])
+        ctx.impl_traces += 1
+
+
+def _c06_class(src, loc, hk, kind):
+    """root-cause class of a location mismatch"""
+    lines = src.splitlines()
+    sl = loc[0]
+    # known: inline `if c: break|continue` is canonicalised BEFORE positions are taken, shifting every later line
+    import re as _re
+
+    shift = sum(1 for ln in lines[:loc[2]] if _re.match(r"\s*(if|elif) .*:\s*(break|continue)\s*$", ln))
+    if shift:
+        return "shifted_by_inline_break"
+    return "%s:%s" % (kind, hk)
+
+
 # =============================================================================================== registry
 def _todo(ctx):
     pass
 
 
-PROVE = {"C02": prove_C02, "C14": prove_C14, "C09": prove_C09, "C10": prove_C10, "C11": prove_C11, "C12": prove_C12, "C13": prove_C13}
-CHECK = {"C02": check_C02, "C14": check_C14, "C09": check_C09, "C10": check_C10, "C11": check_C11, "C12": check_C12, "C13": check_C13}
+PROVE = {"C03": prove_C03, "C06": prove_C06, "C08": prove_C08, "C15": prove_C15, "C02": prove_C02, "C14": prove_C14, "C09": prove_C09, "C10": prove_C10, "C11": prove_C11, "C12": prove_C12, "C13": prove_C13}
+CHECK = {"C03": check_C03, "C06": check_C06, "C08": check_C08, "C15": check_C15, "C02": check_C02, "C14": check_C14, "C09": check_C09, "C10": check_C10, "C11": check_C11, "C12": check_C12, "C13": check_C13}
 
 
 def replay(ctx, payload):
